@@ -10,6 +10,8 @@ import re
 
 from . import ir, mm
 
+# side-effect-free externals: asserting on their result is legitimate, their disappearance under NDEBUG changes nothing
+PURE = ("pthread_equal", "pthread_self", "strcmp", "strncmp", "strlen", "memcmp", "sysconf", "getpid", "gettid", "sched_getcpu")
 ASSERT_SIDE = ("__assert_fail", "assert", "abort", "fprintf", "strerror", "__errno_location", "perror", "exit", "_exit")
 
 
@@ -20,7 +22,7 @@ def signature(f):
             c = i.callee
             if c.startswith("llvm.") and not c.startswith(("llvm.memset", "llvm.memcpy", "llvm.memmove")):
                 continue
-            if c in ASSERT_SIDE:
+            if c in ASSERT_SIDE or c in PURE:
                 continue
             g = f.mod.fn(c)
             if g is not None and g.blocks:
